@@ -1231,9 +1231,9 @@ class GetConfigMessage(MessagePayload):
             title=f'Get Config Command',
             fields=fields)
 
-    @classmethod
-    def calcsize(cls) -> int:
-        return cls.GetConfigMessageConstruct.sizeof()
+    def calcsize(self) -> int:
+        # The interface header is optional, so the size depends on the contents.
+        return len(self.pack())
 
 
 class SaveAction(IntEnum):
